@@ -177,7 +177,7 @@ private theorem core_request (B : Backend) (hg : Gate20) (c : Proxy) (p : Peer) 
   have hver' : cfg'.version = 10 ∨ cfg'.version = 20 := by
     rw [hcfg']; exact requestConfig_ver p.srv.cfg (decide (ver ≥ 20)) hsv
   have hbr : buildResponse p.srv cfg' (.str fresh) (.value v) = .ok (Payload.response cfg'.version (.str fresh) v') := by
-    have := C14_dump_response cfg' p.srv.conv "" v v' .none (.str fresh) .none false (by rfl) (by simp)
+    have := C14_dump_response cfg' p.srv.conv "" v v' .none (.str fresh) .none false (by first | rfl | (intro h; cases h)) (by simp)
       (by simpa [effConv, requestConfig_uj, hcfg'] using hsc)
     simpa [buildResponse, resolveVersion] using this
   obtain ⟨rkvs, hrk, look, hrwf⟩ := response_look cfg'.version (.str fresh) v'
@@ -405,7 +405,7 @@ private theorem error_normal (ver : Nat) (fresh : String) (c : Int) (m : String)
     code and message, C06's exception class), the callable still ran exactly once with the sent
     parameters, and the History holds both texts.  Class translation off. -/
 theorem C01_raises (B : Backend) (hg : Gate20) (c : Proxy) (p : Peer) (h : History)
-    (fresh name : String) (params : PyVal) (t : Target) (f : Callable) (cls text : String) (te ae : Bool)
+    (fresh name : String) (params : PyVal) (t : Target) (f : Callable) (cls text : String) (te ae : Bool) (dp : Nat)
     (hcoff : c.cfg.useJsonclass = false) (hsoff : p.srv.cfg.useJsonclass = false)
     (hsv : p.srv.cfg.version = 10 ∨ p.srv.cfg.version = 20)
     (hcustom : p.srv.custom = Option.none) (hpool : p.srv.pool ≠ .full)
@@ -413,7 +413,8 @@ theorem C01_raises (B : Backend) (hg : Gate20) (c : Proxy) (p : Peer) (h : Histo
     (hshape : params.isTuple = true ∨ params.isDict = true) (hwf : params.wfJson = true)
     (hres : resolves p.srv.reg name = some (t, f))
     (hbind : binds f.sig (serverParams params) = true)
-    (hraise : f.body (serverParams params) = .raised cls text te ae) :
+    (hraise : f.body (serverParams params) = .raised cls text te ae dp)
+    (hdp : te = true → dp ≠ 0) :
     ∃ req rep, req ≠ "" ∧ rep ≠ "" ∧
       serve B.codec p req = (.ok rep, [.call t (.str name) (serverParams params)]) ∧
       (EndToEnd.request B.codec c p h fresh name params).value =
@@ -432,7 +433,7 @@ theorem C01_raises (B : Backend) (hg : Gate20) (c : Proxy) (p : Peer) (h : Histo
   obtain ⟨req, hrender, hreqne, hparse⟩ := B.roundtrip _ (sh.hwf hwf)
   obtain ⟨hmd, hsparse⟩ := serve_call B p fresh name ver params hsv hcustom hpool hfresh hname hwf
     (by rcases hshape with h | h <;> simp [h]) (load_off _ _ hsoff _) t f hres hbind req hparse hreqne
-  rw [invoke_raised t f _ _ cls text te ae hbind hraise] at hmd
+  rw [invoke_raised t f _ _ cls text te ae dp hbind hraise hdp] at hmd
   obtain ⟨cfg', hcfg'⟩ : ∃ x, x = requestConfig p.srv.cfg (decide (ver ≥ 20)) := ⟨_, rfl⟩
   rw [← hcfg'] at hmd
   have hver' : cfg'.version = 10 ∨ cfg'.version = 20 := by
@@ -624,7 +625,7 @@ private theorem entry_job (s : Server) (hsoff : s.cfg.useJsonclass = false) (hcu
     rw [invoke_ret _ _ _ _ _ hg.hbind hbody] at hent
     have hbr : buildResponse s s.cfg (.str x.1) (.value (ret x.2)) =
         .ok (Payload.response s.cfg.version (.str x.1) (ret x.2)) := by
-      have := C14_dump_response s.cfg s.conv "" (ret x.2) (ret x.2) .none (.str x.1) .none false (by rfl) (by simp)
+      have := C14_dump_response s.cfg s.conv "" (ret x.2) (ret x.2) .none (.str x.1) .none false (by first | rfl | (intro h; cases h)) (by simp)
         (by simp [hsoff, pure, Except.pure])
       simpa [buildResponse, resolveVersion] using this
     simp [jobDoc, hn, normalise, respond, entryEffects, hent, requestConfig_true, respOf, hbr]
@@ -1084,7 +1085,7 @@ def Fate.holds (reg : Registry) (j : Job) : Fate → Prop
       f.body (serverParams j.params) = .ret v ∧ (j.notify = false → v.wfJson = true)
   | .raises t f cls text =>
     resolves reg j.method = some (t, f) ∧ binds f.sig (serverParams j.params) = true ∧
-      ∃ te ae, f.body (serverParams j.params) = .raised cls text te ae
+      ∃ te ae dp, f.body (serverParams j.params) = .raised cls text te ae dp ∧ (te = true → dp ≠ 0)
   | .unknown => unknownName reg j.method = true
   | .nobind => ∃ t f, resolves reg j.method = some (t, f) ∧ binds f.sig (serverParams j.params) = false
 
@@ -1185,8 +1186,8 @@ private theorem fate_dispatch (s : Server) (hcustom : s.custom = Option.none) (j
     obtain ⟨hr, hb, hbody, _⟩ := h
     rw [runDispatcher_resolves s hcustom _ _ t f hr, invoke_ret t f _ _ v hb hbody]; rfl
   | raises t f cls text =>
-    obtain ⟨hr, hb, te, ae, hbody⟩ := h
-    rw [runDispatcher_resolves s hcustom _ _ t f hr, invoke_raised t f _ _ cls text te ae hb hbody]; rfl
+    obtain ⟨hr, hb, te, ae, dp, hbody, hdp⟩ := h
+    rw [runDispatcher_resolves s hcustom _ _ t f hr, invoke_raised t f _ _ cls text te ae dp hb hbody hdp]; rfl
   | unknown =>
     simp only [Fate.holds, unknownName, Bool.and_eq_true, Option.isNone_iff_eq_none] at h
     obtain ⟨hf, hi⟩ := h
@@ -1210,7 +1211,7 @@ private theorem respOf_fate (s : Server) (unconv : PyVal → PyM PyVal) (Ts : Tr
   cases o with
   | returns t f v =>
     have hbr : buildResponse s s.cfg (.str fresh) (.value v) = .ok (Payload.response s.cfg.version (.str fresh) (tr s.cfg v)) := by
-      have := C14_dump_response s.cfg s.conv "" v (tr s.cfg v) .none (.str fresh) .none false (by rfl) (by simp)
+      have := C14_dump_response s.cfg s.conv "" v (tr s.cfg v) .none (.str fresh) .none false (by first | rfl | (intro h; cases h)) (by simp)
         (effConv_tr s.cfg s.conv unconv Ts v (hwf t f v rfl) (fun hu => hfree hu t f v rfl))
       simpa [buildResponse, resolveVersion] using this
     simp [Fate.disp, Fate.respDoc, respOf, hbr]
@@ -1580,7 +1581,7 @@ theorem C01_batch_mixed (B : Backend) (hg : Gate20) (c : Proxy) (m : McConfig) (
 def fateOf (tgt : Job → Target) (fn : Job → Callable) (j : Job) : Fate :=
   match (fn j).body (serverParams j.params) with
   | .ret v => .returns (tgt j) (fn j) v
-  | .raised cls text _ _ => .raises (tgt j) (fn j) cls text
+  | .raised cls text _ _ _ => .raises (tgt j) (fn j) cls text
 
 /-- `C01_batch` with class translation ON (any combination of the proxy's, the MultiCall's and the
     server's flags) for payloads free of `"__jsonclass__"` and transparent translators (what C15 establishes
@@ -1592,6 +1593,8 @@ def C01_batch_jsonclass_full_statement : Prop :=
     (p.srv.cfg.version = 10 ∨ p.srv.cfg.version = 20) → p.srv.custom = Option.none → p.srv.pool = .absent →
     (∀ i, fresh i ≠ "") → jobs ≠ [] →
     (∀ j ∈ jobs, JobGood p.srv.reg tgt fn ret j ∧ jcFree j.params = true ∧ (j.notify = false → jcFree (ret j) = true)) →
+    -- a notification whose callable raises: the exception has a frame of its own (every Python callable; C05 `framed`)
+    (∀ j ∈ jobs, framed (fn j) (serverParams j.params) = true) →
     ∃ results,
       (multicall B.codec c m p h fresh jobs).value = .ok (.iterator results) ∧
       iterAll results = .ok ((jobs.filter (fun j => !j.notify)).map (fun j => (ret j).normalise)) ∧
@@ -1599,7 +1602,7 @@ def C01_batch_jsonclass_full_statement : Prop :=
         jobs.map (fun j => Effect.call (tgt j) (.str j.method) (serverParams j.params))
 
 theorem C01_batch_jsonclass : C01_batch_jsonclass_full_statement := by
-  intro B hg c m p h fresh jobs tgt fn ret Tc Tm Ts hsv hcustom hpool hfresh hne hall
+  intro B hg c m p h fresh jobs tgt fn ret Tc Tm Ts hsv hcustom hpool hfresh hne hall hframed
   obtain ⟨js, hjs⟩ : ∃ x, x = jobs.map (fun j => (j, fateOf tgt fn j)) := ⟨_, rfl⟩
   have hfst : js.map (·.1) = jobs := by rw [hjs, List.map_map]; simp [Function.comp_def]
   have hspec : ∀ x ∈ js, JobSpec p.srv.reg x ∧ JobFree x ∧ jobEffects x = [Effect.call (tgt x.1) (.str x.1.method) (serverParams x.1.params)] ∧
@@ -1625,11 +1628,15 @@ theorem C01_batch_jsonclass : C01_batch_jsonclass_full_statement := by
         rw [← ho.2.2, hv hn]; exact hfr hn
       · simp [jobEffects, hfate, Fate.effects]
       · intro hn; simp [jobClient, hfate, Fate.client, hv hn]
-    | raised cls text te ae =>
+    | raised cls text te ae dp =>
       have hfate : fateOf tgt fn j = .raises (tgt j) (fn j) cls text := by simp [fateOf, hbody]
+      have hdp : dp ≠ 0 := by
+        intro h0
+        have := hframed j hj
+        simp [framed, hbody, h0] at this
       refine ⟨⟨hgood.hname, hgood.hshape, hgood.hwf, ?_⟩, ⟨hfp, ?_⟩, ?_, ?_⟩
       · simp only [hfate, Fate.holds]
-        exact ⟨hgood.hres, hgood.hbind, te, ae, hbody⟩
+        exact ⟨hgood.hres, hgood.hbind, te, ae, dp, hbody, fun _ => hdp⟩
       · intro t f v' ho; simp [hfate] at ho
       · simp [jobEffects, hfate, Fate.effects]
       · intro hn
@@ -1723,7 +1730,7 @@ theorem C01_gen_proxyOwnAttrs : Generated.proxyOwnAttrs = some proxyOwnAttrs := 
 private def exReg : Registry :=
   { funcs := [("ns.add", { sig := { names := ["a", "b"] }, body := fun p => .ret (.tuple [p, .int 0]) }),
               ("ping", { sig := { names := [] }, body := fun _ => .ret (.bool false) }),
-              ("boom", { sig := { names := [], star := true }, body := fun _ => .raised "ValueError" "boom" false false })] }
+              ("boom", { sig := { names := [], star := true }, body := fun _ => .raised "ValueError" "boom" false false 1 })] }
 
 private def exPeer : Peer := { srv := { cfg := { version := 10, useJsonclass := false }, reg := exReg } }
 private def exProxy : Proxy := { cfg := { version := 20, useJsonclass := false } }
@@ -1744,7 +1751,7 @@ example : PyVal.bool false ∈ falsyResults := by simp [falsyResults]
 example : JobGood exReg (fun _ => .func)
     (fun j => if j.method = "ns.add" then { sig := { names := ["a", "b"] }, body := fun p => .ret (.tuple [p, .int 0]) }
               else if j.method = "ping" then { sig := { names := [] }, body := fun _ => .ret (.bool false) }
-              else { sig := { names := [], star := true }, body := fun _ => .raised "ValueError" "boom" false false })
+              else { sig := { names := [], star := true }, body := fun _ => .raised "ValueError" "boom" false false 1 })
     (fun j => if j.method = "ns.add" then .tuple [serverParams j.params, .int 0] else .bool false)
     { method := "boom", params := .tuple [.int 1], notify := true } :=
   { hname := by decide, hshape := Or.inl rfl, hwf := by decide +kernel, hres := rfl, hbind := by decide +kernel,
@@ -1763,7 +1770,7 @@ example : ([(.str "self", .int 1), (.str "k", .tuple [])] : List (PyVal × PyVal
 -- that do not bind) and a notification whose callable raises; the hypotheses hold, and the theorem's conclusion
 -- reads: four iterator positions (value, −32603, −32601, −32602), three invocations
 private def exAdd : Callable := { sig := { names := ["a", "b"] }, body := fun p => .ret (.tuple [p, .int 0]) }
-private def exBoom : Callable := { sig := { names := [], star := true }, body := fun _ => .raised "ValueError" "boom" false false }
+private def exBoom : Callable := { sig := { names := [], star := true }, body := fun _ => .raised "ValueError" "boom" false false 1 }
 private def exJobs : List (Job × Fate) :=
   [({ method := "ns.add", params := .tuple [.int 1, .tuple [.str "é"]], notify := false },
       .returns .func exAdd (.tuple [.list [.int 1, .list [.str "é"]], .int 0])),
@@ -1779,7 +1786,7 @@ example : ∀ x ∈ exJobs, JobSpec exReg x ∧ JobFree x := by
               hfate := ⟨rfl, by decide +kernel, rfl, fun _ => by decide +kernel⟩ },
            { params := by decide +kernel, result := fun t f v h _ => by injection h with _ _ h; subst h; decide +kernel }⟩
   · exact ⟨{ hname := by decide, hshape := Or.inr (Or.inl rfl), hwf := by decide +kernel,
-              hfate := ⟨rfl, by decide +kernel, false, false, rfl⟩ },
+              hfate := ⟨rfl, by decide +kernel, false, false, 1, rfl, by decide⟩ },
            { params := by decide +kernel, result := fun t f v h _ => by cases h }⟩
   · exact ⟨{ hname := by decide, hshape := Or.inl rfl, hwf := by decide +kernel,
               hfate := (by show unknownName exReg "nosuch" = true; decide +kernel) },
@@ -1788,7 +1795,7 @@ example : ∀ x ∈ exJobs, JobSpec exReg x ∧ JobFree x := by
               hfate := ⟨.func, { sig := { names := [] }, body := fun _ => .ret (.bool false) }, rfl, by decide +kernel⟩ },
            { params := by decide +kernel, result := fun t f v h _ => by cases h }⟩
   · exact ⟨{ hname := by decide, hshape := Or.inl rfl, hwf := by decide +kernel,
-              hfate := ⟨rfl, by decide +kernel, false, false, rfl⟩ },
+              hfate := ⟨rfl, by decide +kernel, false, false, 1, rfl, by decide⟩ },
            { params := by decide +kernel, result := fun t f v h _ => by cases h }⟩
 example : (answered exJobs).map jobClient =
     [.ok (.list [.list [.int 1, .list [.str "é"]], .int 0]),
